@@ -260,8 +260,11 @@ def exploratory_stream(ctx, r):
             acked = [e[1] for e, ob in zip(h[1], obs) if e[0] == "d" and e[1][:1] == b"\x02" and ob["writes"] == [b"\x06"]]
             want = b"".join(frame_text(f) for f in acked)
             items = [it for ob in obs for it in ob["delivered"]]
-            got = b"".join(frame_text(f) for it in items
-                           for f in re.split(b"\n(?=\x02)", it.encode("latin-1") if isinstance(it, str) else it))
+            try:
+                got = b"".join(frame_text(f) for it in items
+                               for f in re.split(b"\n(?=\x02)", it.encode("latin-1") if isinstance(it, str) else it))
+            except UnicodeEncodeError:
+                got = b"<a delivered text holds characters no received byte stands for>"
             if items and got != want:
                 x.fail(dict(case, acknowledged_text=hexb(want)[:400], delivered_text=hexb(got)[:400]),
                        "the text bytes of the acknowledged frames are not the text bytes of the delivered frames "
